@@ -213,6 +213,15 @@ class NpShim:
             return out.view(SymArr) if out.shape else out[()]
         return np.where(cond, *xy)
 
+    def round(self, a, decimals=0, out=None):
+        """rounding to a number of decimals is not a function of the exact-real model (the object loop would fail with a
+        TypeError that passes for a finding): stated as a model gap; the float64 shadow run still sees what rounding does"""
+        if _has_sym(a):
+            raise ModelGap("np.round on symbolic values (rounding to decimals is outside the exact-real model)")
+        return np.round(a, decimals, out=out)
+
+    around = round
+
     def argmax(self, a, axis=None, **k):
         """np.argmax of a 1-d boolean mask with symbolic entries (the usual "first position where ..." idiom): the position
         is decided by branching on the entries in order (one path per position, plus the all-False path, which gives 0)"""
